@@ -172,7 +172,50 @@ DIRECTED_FORMULAS = [
   'PREVIOUS(rec, order_by="B").id', 'RANK(rec, group_by="A", order_by="B")', 'NEXT(rec, order_by="-A").B',
   'list(T.lookupRecords(A=$B).L)', 'T.lookupOne(B=$A, order_by=("A", "-id")).R.A', '$R.L.A',
   'len(T.all)', '[r.B for r in U.lookupRecords(A=$A, B=$B)]', 'U.lookupOne(A=$R.A).id',
+  # reads through references of a column that may not exist (yet) / whose type changes: rows with a BLANK
+  # reference see the target column's type default, or AttributeError while the column is missing
+  '$R.N', 'list($L.N)', '[x.N for x in $L]', '$R.B', 'str($R.A) + "|" + str($R.B)', '$R.R.B',
 ]
+
+
+def target_schema_edit(rng):
+  """One or two bundles editing the schema of a column of the TARGET table T (the table R and L point to)."""
+  c = rng.choice(['A', 'B', 'N', 'A', 'B'])
+  k = rng.random()
+  ty = lambda: rng.choice(['Text', 'Int', 'Numeric', 'Bool', 'Any', 'Date', 'Choice'])
+  if k < 0.4:
+    return [[['ModifyColumn', 'T', c, {'type': ty()}]]]
+  if k < 0.55:
+    return [[['AddColumn', 'T', 'N', {'type': ty(), 'isFormula': False}]]]
+  if k < 0.7:
+    return [[['RemoveColumn', 'T', c]], [['AddColumn', 'T', c, {'type': ty(), 'isFormula': False}]]]
+  if k < 0.8:
+    return [[['RemoveColumn', 'T', c], ['AddColumn', 'T', c, {'type': ty(), 'isFormula': False}]]]
+  if k < 0.92:
+    return [[['RenameColumn', 'T', c, c + '9']], [['RenameColumn', 'T', c + '9', c]]]
+  return [[['ModifyColumn', 'T', c, {'isFormula': True, 'formula': '$id * 2'}]], [['ModifyColumn', 'T', c, {'isFormula': False}]]]
+
+
+def blankref_history(rng):
+  """U reads T through Ref/RefList columns; some rows of U hold BLANK references; then schema edits of T's columns."""
+  hist = [[['AddTable', 'T', [{'id': 'A', 'type': rng.choice(['Text', 'Int', 'Numeric']), 'isFormula': False},
+                              {'id': 'B', 'type': rng.choice(['Text', 'Int', 'Bool']), 'isFormula': False}]]],
+          [['AddTable', 'U', [{'id': 'R', 'type': 'Ref:T', 'isFormula': False}, {'id': 'L', 'type': 'RefList:T', 'isFormula': False}]]]]
+  forms = ['$R.A', '$R.B', '$R.N', 'list($L.A)', '[x.N for x in $L]', 'str($R.A) + "|" + str($R.B)', 'len($L.B)',
+           'U.lookupOne(R=$R).R.A', '[r.R.A for r in U.lookupRecords(L=CONTAINS($R))]']
+  for i in range(rng.randint(2, 4)):
+    hist.append([['AddColumn', 'U', 'G%d' % i, {'type': rng.choice(['Any', 'Any', 'Text', 'Int']), 'isFormula': True,
+                                                 'formula': rng.choice(forms)}]])
+  hist.append([['BulkAddRecord', 'T', [None, None], {'A': [1, 2], 'B': [3, 4]}]])
+  n = rng.randint(2, 4)
+  hist.append([['BulkAddRecord', 'U', [None] * n, {'R': [rng.choice([0, 0, 1, 2]) for _ in range(n)],
+                                                   'L': [rng.choice([None, None, ['L', 1], ['L', 2, 1]]) for _ in range(n)]}]])
+  for _ in range(rng.randint(3, 7)):
+    if rng.random() < 0.75:
+      hist.extend(target_schema_edit(rng))
+    else:
+      hist.append([['UpdateRecord', 'U', rng.randint(1, n), {'R': rng.choice([0, 1, 2])}]])
+  return hist
 
 
 def directed_history(rng):
@@ -214,9 +257,11 @@ def directed_history(rng):
     elif k < 0.8:
       hist.append([['AddRecord', 'T', nrows['T'] + rng.randint(1, 2), {'A': rng.randint(0, 2)}]])
       nrows['T'] += 2
-    elif k < 0.88:
+    elif k < 0.84:
       hist.append([['ModifyColumn', t, 'G0', {'formula': rng.choice(DIRECTED_FORMULAS)}]])
-    elif k < 0.94:
+    elif k < 0.91:
+      hist.extend(target_schema_edit(rng))
+    elif k < 0.95:
       hist.append([['BulkUpdateRecord', t, [1, 2], {'R': [refval(), refval()], 'A': [rng.randint(0, 2), rng.randint(0, 2)]}]])
     else:
       hist.append([['CreateViewSection', 1 if t == 'T' else 2, 0, 'record', [rng.choice([2, 3])] if t == 'T' else [9], None]])
